@@ -791,7 +791,10 @@ class Backend(ABC):
             )
             for index, query in enumerate(queries)
         ]
-        rule.set_conversion_result(finalized_queries)
+        # As for plain rules: another correlation rule embeds the query without finalization unless
+        # the backend demands it, the query emitted for the rule itself is always finalized.
+        subqueries_finalized = self.finalize_correlation_subqueries or not rule._backreferences
+        rule.set_conversion_result(finalized_queries if subqueries_finalized else queries)
         rule.set_conversion_states(states)
 
         if rule._output:
